@@ -358,13 +358,21 @@ func checkHMACVerify(c *Ctx, rule string) {
 		}
 		c.Check(fed, rule, name+":mac-input", p.InstrPos(sprintf), "the MAC is written with the string to sign", "the MAC input is not the string to sign")
 	}
-	// secrets selected with the signed timestamp
+	checkInboundSecretSelection(c, rule, fn, name)
+}
+
+// checkInboundSecretSelection: the rotating secret set used to verify an inbound request is chosen at the
+// instant the sender signed (the timestamp header), not at the verifier's clock.
+func checkInboundSecretSelection(c *Ctx, rule string, fn *ssa.Function, name string) {
+	p := c.P
+	n := 0
 	for _, b := range fn.Blocks {
 		for _, ins := range b.Instrs {
 			ci, ok := ins.(ssa.CallInstruction)
 			if !ok || !isFieldCall(ci, "HMACAuth", "SelectSecrets") {
 				continue
 			}
+			n++
 			ss := sourcesOf(ci.Common().Args[0])
 			okT := false
 			for _, s := range ss {
@@ -379,6 +387,9 @@ func checkHMACVerify(c *Ctx, rule string) {
 			}
 			c.Check(okT, rule, name+":secrets-selected-at-signed-timestamp", p.InstrPos(ins), "SelectSecrets(time.Unix(ts))", "secrets are not selected with the signed timestamp: "+sourcesString(ss))
 		}
+	}
+	if n == 0 {
+		c.Fail(rule, name+":secrets-selected-at-signed-timestamp", p.Pos(fn.Pos()), "the verifier never consults the rotating secret selector")
 	}
 }
 
